@@ -82,6 +82,8 @@ class Check:
     def floor(self, name, minimum):
         """Fail closed if a rule matched fewer instances than were confirmed by hand."""
         n = self.counts.get(name, 0)
+        if self.violations:
+            return  # a real violation is already reported; an aborted rule must not add floor noise
         self.ob(
             "floor",
             "%s>=%d" % (name, minimum),
